@@ -35,6 +35,10 @@ TECH = {
 }
 
 
+for _p in ("C08", "C13", "C16", "C19", "C20"):
+    TECH[_p] += "; thorough tier adds coverage-guided fuzzing of the same strategy (libFuzzer via atheris, taskiq instrumented)"
+
+
 def main() -> int:
     checks, na = [], []
     for i in range(1, 21):
@@ -76,7 +80,7 @@ def main() -> int:
         },
         "engines": [{
             "name": "vt", "path": "vt/", "serves_properties": [c["property_id"] for c in checks],
-            "kind_free_text": "Hypothesis strategies / rule-based state machines / bounded exhaustive enumeration, a virtual-time asyncio loop, scripted broker/backend/middleware/source harnesses, a fake OS for the process manager; sharded over up to 16 processes; every failure shrunk to a JSON replay file",
+            "kind_free_text": "Hypothesis strategies / rule-based state machines / bounded exhaustive enumeration / libFuzzer-driven (atheris) runs of the same strategies, a virtual-time asyncio loop, scripted broker/backend/middleware/source harnesses, a fake OS for the process manager; sharded over up to 16 processes; every failure shrunk to a JSON replay file",
         }],
         "checks": checks,
         "notes": "Exit 0 = held on everything explored; exit 1 + 'VIOLATION property=<id> replay=<path>'; exit 2 = harness error/inconclusive. "
